@@ -1,17 +1,58 @@
-"""Property -> engines. Obligation membership is by the `props` tag on each spliced contract."""
+"""Property -> engines. Obligation membership is by the `props` tag on each spliced contract
+(Verus units) and by the harness lists below (Kani). `unverified` and `assumptions` are copied
+into every evidence file of the property."""
+
+GLOBAL_ASSUMPTIONS = [
+    'Verus 0.2026.09.13 + bundled Z3, Kani 0.68 / CBMC 6.11, rustc and vstd (model of Vec, slices, Option, ranges, VecDeque) are correct',
+    'usize/u8 arithmetic is modelled exactly with the checked (panic-on-overflow) semantics, which is the stricter one; Verus proves for every usize width unless a unit fixes size_of usize (overlaps: 8)',
+    'the extraction drops only: comments, attributes (derive kept for Clone/Copy/PartialEq/Eq/Debug where listed), crate::/super::/self:: path prefixes, pub(..) restrictions; desugarings R1-R3 and the closure annotation are recorded per function under coverage.desugared',
+    'no unsafe code is in any function under contract',
+]
+
+LEXER_BOUNDED = ('sub-lexer contracts found_ok for lex_spaces/lex_tabs/lex_newlines (Kani-bounded len<=5 quick, <=8 thorough), lex_hex_number, lex_hostname_token, '
+                 'lex_url, lex_email_address (Kani-bounded, thorough tier only) are ASSUMED by the Verus unit `lexing`; found_ok for lex_number is assumed and checked by nothing')
+
 PROPS = {
-    'C13': dict(
+    'C01': dict(
         level='proof',
-        verus=['overlaps'],
-        kani_quick=[], kani_thorough=[],
-        rac=['remove_indices'],
-        unverified=[], assumptions=[],
+        verus=['patterns', 'lexing', 'edit_distance'],
+        kani_quick=['lexing.whitespace_5', 'jsdoc.parse_inline_tag_4', 'jsdoc.parse_inline_tag_5', 'jsdoc.mark_inline_tags_5'],
+        kani_thorough=['lexing.whitespace_5', 'lexing.whitespace_8', 'lexing.hex_5', 'lexing.hostname_4', 'lexing.url_4', 'lexing.email_4',
+                       'jsdoc.parse_inline_tag_4', 'jsdoc.parse_inline_tag_5', 'jsdoc.parse_inline_tag_6', 'jsdoc.mark_inline_tags_5'],
+        unverified=[
+            'every rule body (match_to_lint / lint of ~290 rules), LintGroup::lint, Document::parse condensing passes',
+            'all front-ends that wrap an external parser: Markdown (pulldown-cmark), tree-sitter comment extraction, Typst, HTML, Literate Haskell, git commit parser, javadoc/go/unit comment parsers',
+            'Pattern impls not under contract (assumed to satisfy the trait contract): AnyCapitalization, WordSet, ImpliesQuantity, IsNotTitleCase, SplitCompoundWord, SimilarToPhrase, WhitespacePattern, TokenKindPatternGroup, WordPatternGroup, NaivePatternGroup, WithinEditDistance, the blanket impl for Fn(&Token,&[char])->bool',
+            'polynomial running time (no cost model); only termination of the listed loops is proved',
+            'WithinEditDistance::matches calls edit_distance_min_alloc without establishing len <= 254 (thread_local! closure: not extractable) -- defect D5, seen by reading, decided by no obligation',
+        ],
+        assumptions=[LEXER_BOUNDED,
+                     'VecExt::remove_indices contract assumed in Verus (checked by bounded-rac under C13)',
+                     'jsdoc harnesses are bounded (token sequences of length <= 5, 6 token kinds): bounded, not proved'],
     ),
-    'C15': dict(
+    'C02': dict(
         level='proof',
-        verus=['edit_distance'],
+        verus=['lexing', 'number'],
+        kani_quick=['lexing.whitespace_5'],
+        kani_thorough=['lexing.whitespace_5', 'lexing.whitespace_8', 'lexing.hex_5', 'lexing.hostname_4', 'lexing.url_4', 'lexing.email_4'],
+        unverified=[
+            'Document::parse condensing passes (condense_spaces/newlines/contractions/dotted_initialisms/number_suffixes/ellipsis/latin, match_quotes): not under contract in this round',
+            'every front-end other than plain English (Markdown byte/char bookkeeping, Mask::parse, CollapseIdentifiers, IsolateEnglish, comment parsers, HTML, Typst, LHS, git commit)',
+            'lexical shape of Word tokens (no whitespace inside) and the numeric value of Number tokens (lex_number: str::parse::<f64>)',
+            'which Punctuation variant a punctuation token carries (Punctuation::from_char is verified panic-free only)',
+        ],
+        assumptions=[LEXER_BOUNDED],
+    ),
+    'C03': dict(
+        level='proof',
+        verus=['suggestion', 'patterns'],
         kani_quick=[], kani_thorough=[],
-        unverified=[], assumptions=[],
+        unverified=[
+            'that each of the ~290 rules reports a span with start <= end <= text length (match_to_lint / lint bodies are not under contract); run_on_chunk only guarantees them a non-empty in-bounds sub-slice of the chunk',
+            'LintGroup::lint chunk-cache rebase call sites (LruCache, BTreeMap<String, Box<dyn Linter>>): only the pull/push arithmetic is proved (lemma_rebase, Span::pulled_by/pushed_by)',
+            'Suggestion::replace_with_match_case (iter_mut().zip())',
+        ],
+        assumptions=['Vec::extend specification (assume_specification); desugaring R1'],
     ),
     'C08': dict(
         level='model_checking',
@@ -22,41 +63,46 @@ PROPS = {
                        'pos_conv.span_roundtrip_inner_3', 'pos_conv.roundtrip_final_line_3',
                        'pos_conv.index_to_position_ref_4', 'pos_conv.roundtrip_inner_4', 'pos_conv.roundtrip_single_line_4',
                        'pos_conv.span_roundtrip_inner_4', 'pos_conv.index_to_position_ref_5', 'pos_conv.roundtrip_inner_5'],
-        unverified=[], assumptions=[],
+        unverified=[
+            'BOUNDED ONLY: pos_conv.rs is enumerate().filter_map().take().collect() iterator code outside Verus; nothing here is an unbounded proof',
+            'lint_to_code_actions / generate_code_actions (Url, HashMap, serde_json, Document): TextEdit construction and code-action lookup are not under contract',
+            'texts longer than the bound, characters outside the 6-symbol alphabet',
+        ],
+        assumptions=['Kani results are for a 64-bit target; alphabet {LF, CR, a, TAB, U+1F600, U+0301} represents the UTF-16 width classes 1 and 2 and the only character pos_conv treats specially (LF)'],
+    ),
+    'C13': dict(
+        level='proof',
+        verus=['overlaps'],
+        kani_quick=[], kani_thorough=[],
+        rac=['remove_indices'],
+        unverified=[
+            'VecExt::remove_indices body (Vec::retain with a stateful closure): contract assumed in Verus, executed exhaustively for every length <= 12 and every strictly increasing index list (bounded-rac, not proved)',
+            'callers in harper-wasm / harper-cli / currency_placement.rs and that lints handed to remove_overlaps have start <= end (the precondition)',
+        ],
+        assumptions=['<[T]>::sort_by_key returns a permutation sorted by the closure key (assume_specification); lexicographic Ord on (usize, usize); size_of usize == 8 (needed for `!0 == usize::MAX`)',
+                     'desugaring R1 and the closure annotation of the sort key closure'],
+    ),
+    'C15': dict(
+        level='proof',
+        verus=['edit_distance'],
+        kani_quick=[], kani_thorough=[],
+        unverified=[
+            'agreement of the FST, mutable and merged dictionary back-ends; MergedDictionary union behaviour; fuzzy-search completeness, ordering and caps (fst / levenshtein_automata / hashbrown / itertools code)',
+            'strings longer than 254 chars: edit_distance_min_alloc is proved only under that precondition; at 255 its u8 rows overflow, above 255 it indexes out of bounds (D5); call sites (MutableDictionary::fuzzy_match, WithinEditDistance::matches) are not under contract',
+        ],
+        assumptions=['Vec::extend over RangeInclusive<u8> (vstd iterator model + ext_seq axiom)'],
     ),
     'C17': dict(
         level='proof',
         verus=['number'],
         kani_quick=['number.suffix_full_domain', 'number.from_chars_roundtrip'],
-        unverified=[], assumptions=[],
-    ),
-    'C01': dict(
-        level='proof',
-        verus=['patterns', 'lexing', 'edit_distance'],
-        kani_quick=['lexing.whitespace_5', 'jsdoc.parse_inline_tag_4', 'jsdoc.parse_inline_tag_5', 'jsdoc.mark_inline_tags_5'],
-        kani_thorough=['lexing.whitespace_5', 'lexing.whitespace_8', 'lexing.hex_5', 'lexing.hostname_4', 'lexing.url_4', 'lexing.email_4',
-                       'jsdoc.parse_inline_tag_4', 'jsdoc.parse_inline_tag_5', 'jsdoc.parse_inline_tag_6', 'jsdoc.mark_inline_tags_5'],
-        unverified=[], assumptions=[],
-    ),
-    'C02': dict(
-        level='proof',
-        verus=['lexing', 'number'],
-        kani_quick=['lexing.whitespace_5'],
-        kani_thorough=['lexing.whitespace_5', 'lexing.whitespace_8', 'lexing.hex_5', 'lexing.hostname_4', 'lexing.url_4', 'lexing.email_4'],
-        unverified=[], assumptions=[],
-    ),
-    'C03': dict(
-        level='proof',
-        verus=['suggestion'],
-        kani_quick=[], kani_thorough=[],
+        kani_thorough=['number.suffix_full_domain', 'number.from_chars_roundtrip'],
         unverified=[
-            'that each of the ~290 rules reports a span with start <= end <= text length (match_to_lint / lint bodies are not under contract)',
-            'LintGroup::lint chunk-cache rebase call sites (LruCache, BTreeMap<String, Box<dyn Linter>>)',
-            'Suggestion::replace_with_match_case (iter_mut().zip())',
+            'lex_number (decimal text -> f64 via str::parse, trusted std; exact for integers < 2^53 by IEEE-754)',
+            'condense_number_suffixes (merging <number><suffix-word>) and CorrectNumberSuffix::lint iteration (paste!-generated iter_numbers); "after which nothing is reported" (needs re-lexing)',
         ],
-        assumptions=[
-            'Verus/Z3/rustc/vstd are correct; usize arithmetic modelled exactly (checked semantics), for 32- and 64-bit usize',
-            'desugaring R1 (for (i,x) in e.iter().enumerate()) preserves meaning',
-        ],
+        assumptions=['Kani: 64-bit target, IEEE-754 floats as modelled by CBMC; solver kissat for the 2^53 harness'],
     ),
 }
+for _p in PROPS.values():
+    _p['assumptions'] = list(_p.get('assumptions', [])) + GLOBAL_ASSUMPTIONS
